@@ -138,6 +138,17 @@ def run(chk, ctx):
 
     # ---- content header
     e = H.encode(ctx, pol)
+    # the bytes are a function of the header as it is now: encoding keeps
+    # nothing on the object to be replayed by a later call
+    from .c12 import input_effects
+    kept_ = ['%s %s at %s' % (b_.kind, str(b_.detail)[:40], b_.site)
+             for b_ in input_effects(e['interp'], e['input_ids'])]
+    chk.ob('C04.H', 'content header encoding keeps nothing', not kept_,
+           'frame.marshal stores nothing on the header or its properties'
+           if not kept_ else 'frame.marshal stores on the object it encodes '
+           '(%s): a later call emits what was cached, not the current '
+           'properties' % '; '.join(sorted(set(kept_))[:2]),
+           site='pamqp/header.py')
     if e.get('env') is None:
         chk.undecide('C04.H', 'content header', 'not an envelope')
     else:
